@@ -317,10 +317,19 @@ func writeStore(txn *column.Txn, r column.Row, cs ColSpec, st Store) {
 
 // execTxn runs a generated transaction against the collection.
 func execTxn(c *column.Collection, sch *Schema, live []bool, t TxnSpec) ([]StepResult, error) {
+	return execTxnObs(c, sch, live, t, nil)
+}
+
+// execTxnObs is execTxn with an observer that runs inside the transaction body
+// after each step (no lock is held there).
+func execTxnObs(c *column.Collection, sch *Schema, live []bool, t TxnSpec, obs func(i int, txn *column.Txn, res []StepResult)) ([]StepResult, error) {
 	res := make([]StepResult, len(t.Steps))
 	err := c.Query(func(txn *column.Txn) error {
 		for i := range t.Steps {
 			execStep(txn, sch, live, t.Steps, i, res)
+			if obs != nil {
+				obs(i, txn, res)
+			}
 			if t.FailAt == i {
 				return errRollback
 			}
